@@ -39,6 +39,7 @@ type Opt struct {
 	Presence       int  // account presence: 0 free, 1 (S,D), 2 (S,nil), 3 (nil,D)
 	MultiK         int  // multi-transfer: number of tokens (0: 1..2)
 	CrossOnly      bool // NFT/multi sender side: the destination is pinned to another shard
+	SameItems      bool // multi-transfer sender side: every item is the same concrete fungible item (token "AB", amount 1): what varies is the count
 	SameOnly       bool // NFT/multi sender side: the destination is pinned to the executing shard
 	SelfMeta       bool // the executing shard is the metachain (accounts handed to the call are metachain accounts)
 	DefaultPayable bool // C09: keep the payability handler the constructor installs (no SetPayableHandler)
@@ -189,7 +190,13 @@ func (s *Scn) userSender() {
 // subject is not the argument bytes: C06, C13, C16, C17).
 var small bool
 
+// wideNonce: the nonce argument is 8 or 9 bytes long (values at and beyond the machine word)
+var wideNonce bool
+
 func nonceArg(tag string) []byte {
+	if wideNonce {
+		return verif.BytesOf(tag, 9, 8)
+	}
 	if small {
 		return verif.BytesOf(tag, 1)
 	}
@@ -281,7 +288,7 @@ func wildContent(spec string) [][]byte {
 			case semi:
 				a = verif.BytesOf("w.num", 1, 0, 8, 9)
 			default:
-				a = verif.BytesOf("w.num", 1, 0, 8)
+				a = verif.BytesOf("w.num", 1, 0, 8, 9)
 			}
 		case 'a':
 			switch {
@@ -856,9 +863,12 @@ func scnMultiTransfer(o Opt) *Scn {
 	s.userSender()
 	s.DstAddr = verif.BytesOf("dest", 32, 31)
 	s.notSystem(s.DstAddr)
-	args := [][]byte{s.DstAddr, {byte(k)}}
+	args := [][]byte{s.DstAddr, new(big.Int).SetUint64(uint64(k)).Bytes()}
 	for i := 0; i < k; i++ {
 		it := MultiItem{Tok: tokenID("tok"), NonceB: nonceArg("nonce"), Amt: amount("amt")}
+		if o.SameItems {
+			it = MultiItem{Tok: []byte("AB"), NonceB: []byte{}, Amt: []byte{1}}
+		}
 		scnItems = append(scnItems, it)
 		args = append(args, it.Tok, it.NonceB, it.Amt)
 	}
